@@ -529,6 +529,27 @@ func ruleFrmPair(c *Ctx, r *R) {
 	}
 	_ = m
 	pos := c.Pos(fl)
+	// the slots of a new frame are fresh zero Values: the stack grows by append only.  Re-slicing
+	// it upwards into spare capacity exposes whatever an earlier, deeper call left there.
+	grows := ""
+	ast.Inspect(fl.Body, func(n ast.Node) bool {
+		se, ok := n.(*ast.SliceExpr)
+		if !ok || se.High == nil || !strings.HasSuffix(nosp(c.Src(se.X)), ".stack") {
+			return true
+		}
+		hi := nosp(c.Src(se.High))
+		if id, ok := unparen(se.High).(*ast.Ident); ok {
+			if def := c.singleDef(id); def != nil {
+				hi = nosp(c.Src(def))
+			}
+		}
+		base := nosp(c.Src(se.X))
+		if strings.Contains(hi, "len("+base+")+") || strings.Contains(hi, "cap("+base+")") {
+			grows = c.Pos(se)
+		}
+		return true
+	})
+	r.check(grows == "", "frame-zeroed", pos, "the stack grows by appending zero values only", "mkFunc extends the operand stack by re-slicing it into its spare capacity (at "+grows+") instead of appending fresh zero Values: the locals of the new frame start with whatever a previous call left there — `n := 7; n / 2` is 3.5 after an unrelated call left a float64 in that slot (assign converts to the slot's old type)")
 	if len(paths) != 1 {
 		r.undecided("mkFunc", pos, fmt.Sprintf("the frame closure has %d paths; expected straight-line code", len(paths)))
 		return
